@@ -183,6 +183,8 @@ def neighbourhood(seed, cases, rounds):
             out.append((stream + " " + hx(s), "search"))
     return out
 
+EXTRA_MODULES = {"C09": ["TB.Props.C09cost"]}
+
 def run(pid, tier, seed, replay=None):
     cfg = PROPS[pid]
     res = E.Result(pid, tier, seed)
@@ -191,6 +193,8 @@ def run(pid, tier, seed, replay=None):
         cfg["module"], " && lake env leanchecker " + cfg["module"] if tier == "thorough" else "")
     known = E.load_known()
     E.proof_stage(res, cfg["module"], cfg["theorems"], tier)
+    for extra in EXTRA_MODULES.get(pid, []):
+        E.proof_stage(res, extra, [], tier)
     ok, out = C.harness_build()
     if not ok:
         p = E.write_replay(pid, "harness-build", {"what": "the harness does not build against /repo's working tree", "output": out[-4000:]})
